@@ -19,9 +19,22 @@ def strip_ref(t):
     return t
 
 
+# the same bytes seen as a slice: `&*v`, `v.as_slice()`, `v.as_ref()`, `v.borrow()`, `&v[..]`
+SLICE_VIEWS = {DEREF, "alloc::vec::Vec::<T, A>::as_slice", "core::convert::AsRef::as_ref", "core::borrow::Borrow::borrow"}
+
+
+def is_slice_view(t):
+    if not is_call(t):
+        return False
+    if t[1] in SLICE_VIEWS and len(t[2]) == 1:
+        return True
+    return t[1] == "core::ops::index::Index::index" and len(t[2]) == 2 and t[2][1][0] == "aggr" \
+        and t[2][1][1] == "core::ops::range::RangeFull"
+
+
 def strip_deref_call(t):
-    """deref(&X) / deref(X) -> X (Vec<u8> -> [u8] coercions)"""
-    while is_call(t, DEREF):
+    """deref(&X) / deref(X) / X.as_slice() / &X[..] -> X (Vec<u8> -> [u8] coercions)"""
+    while is_slice_view(t):
         t = strip_ref(t[2][0])
     return t
 
@@ -364,7 +377,7 @@ def _norm(t):
     if k == "param":
         return ("P", t[1])
     if k == "call":
-        if t[1] == DEREF:
+        if is_slice_view(t):
             return _norm(t[2][0])
         return ("call", t[1], tuple(_norm(a) for a in t[2]))
     if k == "aggr":
